@@ -453,6 +453,54 @@ def widened_kernels(res, tier, okx):
     return {"cases": len(model), "weights_zero_point": dict(fills)}
 
 
+def pad_splits(res, tier, okx):
+    """correspondence of model/Rewrites.v pad_split with split_pad_to_sub_pad (run on PAD operators that Vela's own reader
+    built): split or not, the axis kept, both paddings matrices, the extents of the tensor in between; and the source's
+    paddings constant must be left as it was (it may be shared)"""
+    import tempfile
+    n = 150 if tier == "quick" else 3000
+    rng = random.Random("c01pad/%d" % vlib.seed())
+    cases = []
+    for _ in range(n):
+        style = rng.choice(["spatial", "channel", "batch", "ch+sp", "b+sp", "b+ch", "all", "none"])
+        z = lambda on: [rng.choice([0, 1, 2, 3]), rng.choice([0, 0, 1, 2])] if on else [0, 0]      # noqa: E731
+        b = z(style in ("batch", "b+sp", "b+ch", "all"))
+        c = z(style in ("channel", "ch+sp", "b+ch", "all"))
+        hh, ww = z(style in ("spatial", "ch+sp", "b+sp", "all")), z(style in ("spatial", "ch+sp", "b+sp", "all") and rng.random() < 0.7)
+        cases.append([rng.choice([1, 1, 2]), rng.randrange(1, 6), rng.randrange(1, 6), rng.choice([1, 3, 8])] + b + hh + ww + c)
+    tmp = tempfile.mkdtemp(prefix="c01pad_", dir=vlib.BUILD)
+    cj, oj = os.path.join(tmp, "cases.json"), os.path.join(tmp, "out.json")
+    json.dump(cases, open(cj, "w"))
+    p = subprocess.run([vlib.PY, os.path.join(vlib.ROOT, "tools", "rewrite_worker.py"), cj, oj, "padsplit"], env=vlib.py_env({"VERIF_TMP": tmp}),
+                       capture_output=True, text=True, timeout=3000)
+    if p.returncode != 0 or not os.path.exists(oj):
+        res.violation({"machinery": "rewrite worker (padsplit)"}, {"stderr": p.stderr[-1500:]},
+                      "C01: split_pad_to_sub_pad could not be run on generated PAD operators", no_input=True)
+        return {"cases": 0}
+    impl = json.load(open(oj))
+    shutil.rmtree(tmp, ignore_errors=True)
+    model = models.run("pad_split", [c[4:] for c in cases]) if okx else []
+    bad = 0
+    dec = collections.Counter()
+    for c, o, m in zip(cases, impl, model):
+        dec["split" if m[0] == 1 else "left alone"] += 1
+        mid_ok = True
+        if m[0] == 1 and o["r"][0] == 1:
+            moved = m[10:18]
+            mid_ok = o["mid"] == [c[a] + moved[2 * a] + moved[2 * a + 1] for a in range(4)]
+        if (o["r"] != m or not mid_ok or not o["untouched"]) and bad < 5:
+            bad += 1
+            res.violation({"kind": "pad_split", "case": c},
+                          {"shape": c[:4], "paddings [[b],[h],[w],[c]]": [c[4:6], c[6:8], c[8:10], c[10:12]],
+                           "implementation [split, axis, kept(8), moved(8)]": o["r"], "tensor between the two": o.get("mid"),
+                           "source paddings constant untouched": o["untouched"], "model": m},
+                          "C01: split_pad_to_sub_pad on a PAD of %s with paddings %s: %s (props/C01.v pad_split_sound, pad_twice_is_pad_once)" % (
+                              c[:4], [c[4:6], c[6:8], c[8:10], c[10:12]],
+                              "the paddings constant of the source was modified in place" if (o["r"] == m and mid_ok) else
+                              "the two operators it leaves are not the split that is proved to equal the original PAD"))
+    return {"cases": len(model), "decisions": dict(dec)}
+
+
 def run(tier):
     res = vlib.Result("C01", tier, "other")
     b = vlib.build_property("C01")
@@ -460,6 +508,7 @@ def run(tier):
     okm, _ = vlib.build_extraction()
     rw_cov = rewrite_decisions(res, tier, okm and b["ok"])
     rw_cov["widened_kernels"] = widened_kernels(res, tier, okm and b["ok"])
+    rw_cov["pad_splits"] = pad_splits(res, tier, okm and b["ok"])
     n = 440 if tier == "quick" else 3200
     max_macs = 1200000 if tier == "quick" else 30000000
     rng = random.Random("c01/%d" % vlib.seed())
